@@ -288,7 +288,7 @@ class World:
                 self.fail('earlier-module-changed', module=rec['desc'], input=PROBES[k], before=list(rec['probes'][k]),
                           after=list(now[k]), after_creating=self.mods[-1]['desc'])
 
-    def parse(self, mi, entry, text):
+    def parse(self, mi, entry, text, force=False):
         rec = self.mods[mi % len(self.mods)]
         if rec.get('flatmod') is None:
             return None
@@ -300,7 +300,7 @@ class World:
                 return None
             if visible_def(chain, entry, top) != top and overridden_reachable(chain, entry):
                 excluded = True      # known finding F13e
-        if excluded:
+        if excluded and not force:
             if self.res is not None:
                 self.res.excluded += 1
             return 'excluded'
@@ -343,7 +343,7 @@ class World:
             if op[0] == 'create':
                 self.create(op[1], op[2])
             elif op[0] == 'parse':
-                self.parse(op[1], op[2], op[3])
+                self.parse(op[1], op[2], op[3], force=len(op) > 4 and op[4] == 'force')
             if self.problem:
                 break
         return self.problem
